@@ -230,6 +230,55 @@ def reserved_values():
     return guarded("reserved", run)
 
 
+def kinds_in_declarations():
+    """scalar N, array N(), string N$ and string array N$() are four variables: a program that uses all four of one name gets
+    four identifiers, each declared under exactly one kind (scalar or array), whatever position the uses stand in and whatever
+    string size is requested"""
+    from coco.b09.compiler import convert
+
+    def run():
+        res = []
+        progs = {
+            "DIM scalar and array of one name": "10 DIM N,N(50),T$,T$(30)\n20 N=1:N(40)=7:T$=\"A\":T$(20)=\"B\"\n",
+            "DIM array then scalar": "10 DIM N(50),N,T$(30),T$\n20 N=1:N(40)=7:T$=\"A\":T$(20)=\"B\"\n",
+            "implicit arrays next to scalars": "10 N=1:N(4)=7:T$=\"A\":T$(2)=\"B\":PRINT N;N(4);T$;T$(2)\n",
+            "READ targets": "10 DATA 1,2,A,B\n20 READ N,N(3),T$,T$(3)\n",
+            "READ targets with an empty item": "10 DATA 1,,A,B\n20 READ N,N(3),T$,T$(3)\n",
+            "INPUT targets": "10 INPUT N,N(3),T$,T$(3)\n",
+            "two DIM statements": "10 DIM N(5)\n20 DIM N,T$\n30 DIM T$(6)\n40 N=N(1):T$=T$(1)\n",
+        }
+        want = {"N": "scalar", "arr_N": "array", "T$": "scalar", "arr_T$": "array"}
+        for name, src in progs.items():
+            for size in (32, 80):
+                try:
+                    text = convert(src, add_standard_prefix=False, default_str_storage=size, initialize_vars=True)
+                except Exception as e:  # noqa
+                    res.append(ob("kinds/%s,size=%d" % (name, size), False, "converted", "%s: %s" % (type(e).__name__, str(e)[:100])))
+                    continue
+                kinds = {}
+                for line in text.split("\n"):
+                    m = re.match(r"^(?:\d+ )?DIM (.*)$", line.strip())
+                    if not m:
+                        continue
+                    body = re.sub(r":\s*STRING(\[\d+\])?", "", m.group(1))
+                    for item in re.split(r",\s*(?![^()]*\))|;\s*", body):
+                        item = item.strip()
+                        mm = re.match(r"^([A-Za-z_][A-Za-z_0-9]*\$?)(\(.*\))?$", item)
+                        if mm:
+                            kinds.setdefault(mm.group(1), []).append("array" if mm.group(2) else "scalar")
+                bad = {k: v for k, v in kinds.items() if k in want and (len(set(v)) > 1 or v[0] != want[k] or len(v) > 1)}
+                if name.startswith("DIM "):
+                    # the array the source DIMensions keeps its own bound (it is not taken for the scalar of the same name)
+                    for ident, bound in (("arr_N", 51), ("arr_T$", 31)):
+                        if not re.search(r"DIM [^\n]*%s\(%d\)" % (re.escape(ident), bound), text):
+                            bad[ident + " bound"] = "no declaration %s(%d) in the output" % (ident, bound)
+                used = set(re.findall(r"(?<![A-Za-z_0-9$.])((?:arr_)?[NT]\$?)(?![A-Za-z0-9_$])", re.sub(r'"[^"]*"', '""', text)))
+                stray = sorted(used - set(want))
+                res.append(ob("kinds/%s,size=%d" % (name, size), not bad and not stray, "each of N, arr_N, T$, arr_T$ declared at most once, under its own kind", dict(declared=kinds, wrong=bad, stray=stray) if bad or stray else "ok"))
+        return res
+    return guarded("kinds-in-declarations", run)
+
+
 def config_names_c09():
     # a name in the string-size configuration denotes the same identifier as that name in the program (shared with C10)
     from tx.p_c10 import config_names
@@ -237,4 +286,4 @@ def config_names_c09():
 
 
 def obligations():
-    return truncation() + kinds_disjoint() + generated_identifiers() + variable_positions() + positions_through_rules() + reserved_values() + initializer_skips_generated() + config_names_c09()
+    return truncation() + kinds_disjoint() + generated_identifiers() + variable_positions() + positions_through_rules() + reserved_values() + initializer_skips_generated() + config_names_c09() + kinds_in_declarations()
